@@ -91,7 +91,7 @@ REPO = os.environ.get("CLIKIT_REPO", "/repo")
 ANSI_RE = re.compile(r"\x1b\[[0-9;]*m")
 TAG_RE = re.compile(r"(?isx)<(([a-z][a-z0-9,_=;-]*) | /([a-z][a-z0-9,_=;-]*)?)>")   # pastel's FULL_TAG_REGEX
 VERBOSITIES = [0, 1, 2, 4]
-IGNORES = [None, "", "vendor", "all", "nomatch"]
+IGNORES = [None, "", "vendor", "all", "nomatch", "exec"]
 
 # ------------------------------------------------------------------ adversarial messages
 MESSAGES = [
@@ -493,6 +493,10 @@ class Program(object):
             return re.escape(os.path.join(self.root, "vendor"))
         if ig == "all":
             return ".*"
+        if ig == "exec":
+            # the name recorded for source-less code (`<generated>`, `<string>`): the pattern is matched against the
+            # file name a frame RECORDS, whatever that name is
+            return re.escape(self.exec_name)
         return "/nonexistent/"
 
     def raise_it(self):
